@@ -13,9 +13,9 @@ Proof.
   - destruct (startswith r suf); [|discriminate]. intros H; injection H as <-; lia.
 Qed.
 
-Lemma rx_match_consumes r u n g : rx_consumes r = true -> rx_match r u = Some (n, g) -> 1 <= n.
+Lemma rx_match_consumes r pv u n g : rx_consumes r = true -> rx_match r pv u = Some (n, g) -> 1 <= n.
 Proof.
-  destruct r as [l|lo hi m|c m|pre lo hi suf]; cbn [rx_consumes rx_match].
+  destruct r as [l|lo hi m|c m|pre lo hi suf|lo hi l|l]; cbn [rx_consumes rx_match].
   - destruct l; [discriminate|]. intros _. destruct (startswith u (n0 :: l)); [|discriminate].
     intros H; injection H as <- _. cbn; lia.
   - intros Hm. apply Nat.leb_le in Hm.
@@ -27,16 +27,23 @@ Proof.
   - intros _. destruct (startswith u pre); [|discriminate].
     destruct (grp_len lo hi suf (skipn (length pre) u)) as [k|] eqn:E; [|discriminate].
     apply grp_len_pos in E. intros H; injection H as <- _. lia.
+  - destruct l; [discriminate|]. intros _.
+    destruct (match pv with Some c => in_cls lo hi c | None => false end); [discriminate|].
+    destruct (startswith u (n0 :: l)); [|discriminate].
+    intros H; injection H as <- _. cbn; lia.
+  - destruct l; [discriminate|]. intros _. destruct pv; [discriminate|].
+    destruct (startswith u (n0 :: l)); [|discriminate].
+    intros H; injection H as <- _. cbn; lia.
 Qed.
 
-Lemma apply_regexes_consumes l u n repl :
+Lemma apply_regexes_consumes l pv u n repl :
   forallb (fun p => rx_consumes (fst p)) l = true ->
-  apply_regexes (map (fun p => (fst p, den_rrepl (snd p))) l) u = CMatch n repl -> 1 <= n.
+  apply_regexes (map (fun p => (fst p, den_rrepl (snd p))) l) pv u = CMatch n repl -> 1 <= n.
 Proof.
   induction l as [|[r rp] l IH]; cbn [forallb map apply_regexes fst snd]; [discriminate|].
   intros H. apply andb_prop in H. destruct H as [Hr Hl].
-  destruct (rx_match r u) as [[k g]|] eqn:E; [|auto].
-  pose proof (rx_match_consumes _ _ _ _ Hr E).
+  destruct (rx_match r pv u) as [[k g]|] eqn:E; [|auto].
+  pose proof (rx_match_consumes _ _ _ _ _ Hr E).
   destruct (den_rrepl rp).
   - destruct (expand t (firstn k u) g); [|discriminate]. intros H0; injection H0 as <- _. auto.
   - intros H0; injection H0 as <- _. auto.
@@ -48,7 +55,7 @@ Proof.
   destruct c as [l r| | |chars k r]; cbn [callable_consumes den_callable].
   - destruct l; [discriminate|]. intros _. destruct (startswith (skipn pos s) (n0 :: l)); [|discriminate].
     intros H; injection H as <- _. cbn; lia.
-  - intros _. destruct (rx_match (RxClassMin 65 90 2) (skipn pos s)) as [[k g]|] eqn:E.
+  - intros _. destruct (rx_match (RxClassMin 65 90 2) None (skipn pos s)) as [[k g]|] eqn:E.
     + intros H; injection H as <- _. eapply rx_match_consumes; eauto. reflexivity.
     + destruct (startswith (skipn pos s) s_dots); [|discriminate]. intros H; injection H as <- _. lia.
   - intros _. destruct (N.eqb (nth pos s 0%N) 34); [|discriminate].
@@ -87,17 +94,17 @@ Qed.
 
 
 
-Lemma apply_regexes_no_raise l u e :
+Lemma apply_regexes_no_raise l pv u e :
   forallb (fun p => match snd p with SRTempl t => templ_ok (fst p) t | SRWrap _ _ => true end) l = true ->
-  apply_regexes (map (fun p => (fst p, den_rrepl (snd p))) l) u <> CRaise e.
+  apply_regexes (map (fun p => (fst p, den_rrepl (snd p))) l) pv u <> CRaise e.
 Proof.
   induction l as [|[r rp] l IH]; cbn [forallb map apply_regexes fst snd]; [discriminate|].
   intros H. apply andb_prop in H. destruct H as [Hr Hl].
-  destruct (rx_match r u) as [[k g]|] eqn:E; [|auto].
+  destruct (rx_match r pv u) as [[k g]|] eqn:E; [|auto].
   destruct rp as [t|pre post]; cbn [den_rrepl]; [|discriminate].
   destruct (expand t (firstn k u) g) eqn:Ex; [discriminate|]. exfalso.
   destruct g as [g|]; [eapply expand_with_g1; eauto|].
-  destruct r as [l0|lo hi m|c m|pre lo hi suf]; cbn [templ_ok] in Hr;
+  destruct r as [l0|lo hi m|c m|pre lo hi suf|lo hi l0|l0]; cbn [templ_ok] in Hr;
     try (eapply expand_no_g1; eauto; fail).
   cbn [rx_match] in E. destruct (startswith u pre); [|discriminate].
   destruct (grp_len lo hi suf (skipn (length pre) u)); discriminate.
@@ -107,7 +114,7 @@ Lemma den_callable_no_raise c s pos e : den_callable c s pos <> CRaise e.
 Proof.
   destruct c as [l r| | |chars k r]; cbn [den_callable].
   - destruct (startswith (skipn pos s) l); discriminate.
-  - destruct (rx_match (RxClassMin 65 90 2) (skipn pos s)) as [[k g]|]; [discriminate|].
+  - destruct (rx_match (RxClassMin 65 90 2) None (skipn pos s)) as [[k g]|]; [discriminate|].
     destruct (startswith (skipn pos s) s_dots); discriminate.
   - destruct (N.eqb (nth pos s 0%N) 34); [|discriminate]. destruct pos; [discriminate|].
     destruct (is_blank (nth pos s 0%N)); discriminate.
